@@ -405,7 +405,10 @@ fn gen_doc(rng: &mut Rng, cols: &[String], root_class: bool) -> Doc {
             if !c.is_empty() && !c.contains(' ') { classes.push(c); }
         }
         if rng.chance(1, 5) { classes.push("mine".into()); }
-        let cls = if classes.is_empty() { String::new() } else { format!(" class=\"{}\"", classes.join(" ")) };
+        // class names are separated by white space of any kind: blanks, a tab, a line break (written
+        // literally or as a character reference)
+        let csep = *rng.pick(&[" ", " ", " ", "  ", "\t", "\n      ", "&#9;", "&#10;", " \t "]);
+        let cls = if classes.is_empty() { String::new() } else { format!(" class=\"{}\"", classes.join(csep)) };
         let y = 15 * i;
         let txt = if rng.chance(1, 3) { format!(" text=\"t{i}\"") } else { String::new() };
         body.push(match rng.below(9) {
